@@ -13,7 +13,7 @@ use serde::{Deserialize, Serialize};
 use crate::{
     core::{Obs, Prop, PropPart, Property, Tier},
     fake_junos::FakeJunos,
-    fullrun::{full_run, RunResult},
+    fullrun::RunResult,
     irr::{compare, Answer, Db, Expr, FakeIrrd, Op, Oracle},
     junos_model::{accept_entries, Config, PRange},
     props::c04::scenario,
@@ -137,7 +137,7 @@ pub fn installed_matches(
     })
 }
 
-pub struct C15;
+pub struct C15(pub crate::fullrun::Runner);
 
 fn kind_strategy() -> impl Strategy<Value = Kind> {
     let m = || any::<u16>().prop_map(|m| m & 0xfff);
@@ -157,7 +157,10 @@ fn kind_strategy() -> impl Strategy<Value = Kind> {
 impl Prop for C15 {
     type Case = Case;
     fn name(&self) -> &'static str {
-        "mixed-policy-sets"
+        match self.0 {
+            crate::fullrun::Runner::Hook => "mixed-policy-sets",
+            crate::fullrun::Runner::Binary => "mixed-policy-sets-binary",
+        }
     }
     fn rule(&self) -> String {
         "2..7 managed policies of which at least one is valid RPSL but unevaluable (unknown as-set, \
@@ -171,7 +174,10 @@ impl Prop for C15 {
             .into()
     }
     fn cases(&self, tier: Tier) -> u32 {
-        tier.pick(1_500, 100_000)
+        match self.0 {
+            crate::fullrun::Runner::Hook => tier.pick(1_500, 100_000),
+            crate::fullrun::Runner::Binary => tier.pick(60, 4_000),
+        }
     }
     fn fixed_cases(&self) -> Vec<Case> {
         // every unevaluable kind alone next to two good policies, at each position
@@ -214,7 +220,7 @@ impl Prop for C15 {
         };
         let fake = Arc::new(Mutex::new(FakeJunos::new("bgpfu")));
         fake.lock().unwrap().running = stmts.clone();
-        let result = full_run(&fake, ("127.0.0.1", irrd.port), "bgpfu");
+        let result = crate::fullrun::agent_run(self.0, &fake, ("127.0.0.1", irrd.port), "bgpfu");
         let (after, commits, proto) = {
             let f = fake.lock().unwrap();
             (f.ephemeral.clone(), f.commits, f.protocol_errors.clone())
@@ -290,6 +296,9 @@ pub fn property() -> Property {
     Property {
         id: "C15",
         level: "exploration",
-        parts: vec![Box::new(PropPart(C15))],
+        parts: vec![
+            Box::new(PropPart(C15(crate::fullrun::Runner::Hook))),
+            Box::new(PropPart(C15(crate::fullrun::Runner::Binary))),
+        ],
     }
 }
